@@ -317,6 +317,9 @@ pub fn cas_strategy(nonzero_pct: u32) -> BoxedStrategy<CasSel> {
         3 => Just(CasSel::CurrentPlus1),
         2 => u64_edges().prop_map(CasSel::Arbitrary),
         1 => Just(CasSel::Max),
+        // a little below 2^64: whatever the store derives from a client-supplied CAS (cas + 1, a counter
+        // pushed ahead of it) wraps within a few more mutations
+        1 => (1u64..=6).prop_map(|k| CasSel::Arbitrary(u64::MAX - k)),
     ];
     (pct(nonzero_pct), nz).prop_map(|(b, c)| if b { c } else { CasSel::Zero }).boxed()
 }
@@ -387,7 +390,8 @@ pub fn op_strategy(cfg: &GenCfg) -> BoxedStrategy<SymOp> {
     let flush0 = (pct(q), any::<bool>())
         .prop_map(|(quiet, extras)| SymOp::Flush { quiet, delay: 0, extras })
         .boxed();
-    let flushn = (pct(q), prop_oneof![3 => 1u32..20, 2 => 20u32..2000, 1 => 2000u32..1_000_000])
+    // "any delay": small ones, and the far end of the u32 range (a deadline beyond everything else in the history)
+    let flushn = (pct(q), prop_oneof![6 => 1u32..20, 4 => 20u32..2000, 2 => 2000u32..1_000_000, 1 => prop_oneof![Just(u32::MAX), Just(u32::MAX - 1), Just(0x8000_0000u32), Just(2_592_001u32), 0xffff_ff00u32..=u32::MAX]])
         .prop_map(|(quiet, delay)| SymOp::Flush { quiet, delay, extras: true })
         .boxed();
     let adv = prop_oneof![
